@@ -146,10 +146,11 @@ class BoundMethod:
 
 
 class RegexV:
-    __slots__ = ('lang',)
+    __slots__ = ('lang', 'reg')
 
-    def __init__(self, lang):
+    def __init__(self, lang, reg=None):
         self.lang = lang
+        self.reg = reg
 
 
 class MatchV:
@@ -186,17 +187,18 @@ class RegNone:
 
 
 class RegDict:
-    __slots__ = ('name',)
+    __slots__ = ('name', 'query')
 
-    def __init__(self, name):
+    def __init__(self, name, query=None):
         self.name = name
+        self.query = query
 
 
 class Str:
     """pre: cells for the first positions, body: cell for the middle (None if fixed length),
     suf: cells for the last positions counted from the end (suf[0] is the last char).
     A cell is an int (looked up in env.store) or a frozenset (immediate class)."""
-    __slots__ = ('pre', 'body', 'suf', 'lo', 'hi', 'imprecise', 'parent', 'roots', 'sid')
+    __slots__ = ('pre', 'body', 'suf', 'lo', 'hi', 'imprecise', 'parent', 'roots', 'sid', 'reg')
 
     def __init__(self, pre, body=None, suf=(), lo=None, hi=None, imprecise=False, parent=None, roots=(), sid=None):
         self.pre, self.body, self.suf = tuple(pre), body, tuple(suf)
@@ -208,6 +210,7 @@ class Str:
         self.parent = parent     # (base Str, number of characters dropped) for slices
         self.roots = roots       # sids of strings that are non-empty whenever this one is
         self.sid = sid if sid is not None else fresh_id()
+        self.reg = None          # (registry, key, sid of the queried string) for values read from a registry
 
     @property
     def fixed(self):
